@@ -38,7 +38,12 @@ def itersRequest : Sexp → Option String
       let sh (l : List (Option (Nat × Nat))) : String :=
         " ".intercalate (l.map fun | some p => s!"{p.1}:{p.2}" | none => "panic")
       let m := mkScriptMem init cap
-      some s!"{sh (drainSlice scriptRead (scriptBody ops) (init.length + 1) (newSliceIter init.length) m)} ### {sh (rangeSlice scriptRead (scriptBody ops) init.length m)}"
+      -- the same through `loopSlice` (the loop of C04_slice_range) with a body that logs what it sees
+      let lp := loopSlice (M := ScriptMem × List (Option (Nat × Nat))) (fun mm i => scriptRead mm.1 i)
+        (fun j e mm => ((scriptBody ops j mm.1, mm.2 ++ [e]), false)) (init.length + 1) (newSliceIter init.length) (m, []) 0
+      let dr := drainSlice scriptRead (scriptBody ops) (init.length + 1) (newSliceIter init.length) m
+      if sh lp.1.2 != sh dr || lp.2 != init.length + 1 then some "bad-internal loopSlice and drainSlice differ" else
+      some s!"{sh dr} ### {sh (rangeSlice scriptRead (scriptBody ops) init.length m)}"
   | .list [.atom "k10", .atom which, .atom tok, .atom key, .atom val] => do
       -- the shape of the lowered loop body for one form of the range clause; names: k = 1, v = 2
       let tok ← (match tok with | "define" => some RL.Tok.define | "assign" => some RL.Tok.assign | _ => none)
